@@ -313,6 +313,16 @@ func (db *DB) exist(o Object) (ok bool, err error) {
 
 func (db *DB) writeObject(o Object) (err error) {
 	var data []byte
+
+	if data, err = json.Marshal(o); err != nil {
+		return
+	}
+
+	return db.writeObjectData(o, data)
+}
+
+// writeObjectData writes an already serialized Object to disk
+func (db *DB) writeObjectData(o Object, data []byte) (err error) {
 	var s *Schema
 
 	if s, err = db.schema(o); err != nil {
@@ -321,10 +331,6 @@ func (db *DB) writeObject(o Object) (err error) {
 
 	path := db.oPath(s, o)
 	if err = os.MkdirAll(filepath.Dir(path), DefaultPermissions); err != nil {
-		return
-	}
-
-	if data, err = json.Marshal(o); err != nil {
 		return
 	}
 
@@ -384,9 +390,16 @@ func (db *DB) initialize(o Object) (err error) {
 }
 
 func (db *DB) insertOrUpdate(s *Schema, o Object, commit bool) (err error) {
+	var data []byte
 
 	// initialize object first
 	if err = db.initialize(o); err != nil {
+		return
+	}
+
+	// we serialize before modifying anything, so that an Object
+	// which cannot be serialized leaves no trace in index or cache
+	if data, err = json.Marshal(o); err != nil {
 		return
 	}
 
@@ -405,7 +418,7 @@ func (db *DB) insertOrUpdate(s *Schema, o Object, commit bool) (err error) {
 		db.asyncw.put(o)
 	} else {
 		// writing the object to disk
-		if err = db.writeObject(o); err != nil {
+		if err = db.writeObjectData(o, data); err != nil {
 			return
 		}
 
@@ -910,6 +923,12 @@ func (db *DB) InsertOrUpdateMany(objects ...Object) (n int, err error) {
 		// validate object before insertion
 		if err = o.Validate(); err != nil {
 			err = validationErr(o, err)
+			return
+		}
+
+		// an object which cannot be serialized must be
+		// rejected before anything is inserted
+		if _, err = json.Marshal(o); err != nil {
 			return
 		}
 
